@@ -15,6 +15,12 @@ func (c *Ctx) callees(fn *ssa.Function) []*ssa.Function {
 	seen := map[*ssa.Function]bool{}
 	var out []*ssa.Function
 	add := func(f *ssa.Function) {
+		if f != nil && f.Synthetic != "" && f.Pkg == nil {
+			// bound method values (x.M passed as a function) and thunks: the declared method is what runs
+			if obj, ok := f.Object().(*types.Func); ok {
+				f = c.Prog.FuncValue(obj)
+			}
+		}
 		if f == nil || seen[f] || f.Pkg == nil || c.SSA[f.Pkg.Pkg.Path()] == nil {
 			return
 		}
